@@ -382,7 +382,67 @@ func serverSideDeadline(r *Run) {
 	}
 }
 
+// unaryCancelAfterReplyHeaders: a unary HTTP call whose context ends after the reply headers have arrived, while the caller
+// is still busy with them (many grpc.Header options widen that window) and the body is being read. Whatever I/O error the
+// cancellation provokes, the caller must get the Canceled / DeadlineExceeded status, never a bare error.
+func unaryCancelAfterReplyHeaders(r *Run) {
+	gotHeaders := make(chan struct{}, 1)
+	srv := httptest.NewServer(http.HandlerFunc(func(w http.ResponseWriter, req *http.Request) {
+		w.Header().Set("Content-Type", httpgrpc.UnaryRpcContentType_V1)
+		w.Header().Set("Content-Length", "100")
+		w.Header().Set("k", "v")
+		w.WriteHeader(200)
+		w.(http.Flusher).Flush()
+		select {
+		case gotHeaders <- struct{}{}:
+		default:
+		}
+		<-req.Context().Done()
+	}))
+	defer srv.Close()
+	u, _ := url.Parse(srv.URL)
+	hs := make([]metadata.MD, 200000)
+	var opts []grpc.CallOption
+	for i := range hs {
+		opts = append(opts, grpc.Header(&hs[i]))
+	}
+	tr := &http.Transport{}
+	defer tr.CloseIdleConnections()
+	for i := 0; i < r.Budget(40, 300); i++ {
+		select {
+		case <-gotHeaders:
+		default:
+		}
+		ch := &httpgrpc.Channel{Transport: tr, BaseURL: u}
+		expire := i%2 == 1
+		var ctx context.Context
+		var cancel context.CancelFunc
+		ctx, cancel = context.WithCancel(context.Background())
+		want := "status:1"
+		if expire {
+			ctx, cancel = context.WithDeadline(context.Background(), time.Now().Add(time.Hour))
+			want = "status:1" // (the deadline is far away: the cancel function ends it)
+		}
+		go func(i int) {
+			<-gotHeaders
+			time.Sleep(time.Duration(100+i*40) * time.Microsecond)
+			cancel()
+		}(i)
+		err := ch.Invoke(ctx, "/s.S/U", &Msg{}, &Msg{}, opts...)
+		cancel()
+		got := resOf(err)
+		r.Eval(fmt.Sprint("unary-cancel-after-headers", i), true)
+		r.Count("unary-cancel-after-headers")
+		if got != want {
+			r.Violate("http/unary/cancel-after-reply-headers-not-status", "every pending and later unary call … returns promptly with a gRPC status of Canceled or DeadlineExceeded, never … a bare io.EOF or other non-status error",
+				sprintf("context cancelled %d µs after the reply headers arrived, body still being read: Invoke returned %s (%v)", 100+i*40, got, err),
+				map[string]interface{}{"transport": "httpnet", "kind": "unary", "op": "cancel-after-reply-headers", "delay_us": 100 + i*40, "header_options": len(opts)}, got)
+		}
+	}
+}
+
 func extraC04(r *Run) {
+	unaryCancelAfterReplyHeaders(r)
 	serverSideDeadline(r)
 	for _, tp := range bothTransports() {
 		for i := 0; i < r.Budget(3, 20); i++ {
